@@ -9,7 +9,7 @@ S=/dev/shm/benign_$N; rm -rf $S; mkdir -p $S; rsync -a /repo/androguard $S/
 cd /verif
 for P in "$@"; do
   VERIF_REPO=$S VERIF_OUT=/dev/shm/benignout_$N timeout 2400 ./check $P > /dev/shm/benignchk_${N}_$P.log 2>&1; RC=$?
-  echo "$N $P exit=$RC $(tail -1 /dev/shm/benignchk_${N}_$P.log | grep -o 'violations=[0-9]* undecided=[0-9]*')"
+  echo "$N $P exit=$RC $(tail -1 /dev/shm/benignchk_${N}_$P.log | grep -oE 'violations=[0-9]+ undecided=[0-9]+( degraded=[0-9]+)?')"
   [ $RC -ne 0 ] && grep -E "^(VIOLATION|UNDECIDED|CRASH|NOTE)" /dev/shm/benignchk_${N}_$P.log | sed 's/replay=[^ ]* //' | cut -c1-260 | head -6
 done
 rm -rf $S /dev/shm/benignout_$N
